@@ -54,7 +54,7 @@ func vpLinesNameSettings(text string) bool {
 
 //vp:property C19 C12
 //vp:set budget 200 1200
-//vp:bounds one or two downloads in a row (same handler, different users) with the administrator's template configured or not. Template (when present): compression:i:0, audiomode:i:2, username:s:tpluser, domain:s:tpldomain, full address:s:elsewhere, gatewayhostname:s:elsewhere, gatewaycredentialssource:i:0, gatewayaccesstoken:s:old, plus symbolic presence of "alternate shell:s:sh". Users: "alice@corp" / "bob" / "carol@lab" / "jürgen" (which one downloads first is symbolic); domain splitting and user-name suppression symbolic; host selection roundrobin over one host
+//vp:bounds one or two downloads in a row (same handler, different users) with the administrator's template configured or not. Template (when present): compression:i:0, audiomode:i:2, username:s:tpluser, domain:s:tpldomain, full address:s:elsewhere, gatewayhostname:s:elsewhere, gatewaycredentialssource:i:0, gatewayaccesstoken:s:old, plus symbolic presence of "alternate shell:s:sh". Users: "alice@corp" / "bob" / "carol@lab" / "jürgen" / "dave @ lab" (the last may be refused) (which one downloads first is symbolic); domain splitting and user-name suppression symbolic; host selection roundrobin over one host
 //vp:assume as VP_C19_template (koanf / mapstructure models compared with the real libraries natively); fatih/structs answered from the static types
 //vp:reach served second
 func VP_C19_download_template() {
@@ -84,11 +84,11 @@ func VP_C19_download_template() {
 		RdpOpts:            RdpOpts{SplitUserDomain: split, NoUsername: noUser},
 		TemplateFile:       tpl,
 	}).NewHandler()
-	users := []string{"alice@corp", "bob", "carol@lab", "j\xc3\xbcrgen"} // the last one with a letter outside ASCII
+	users := []string{"alice@corp", "bob", "carol@lab", "j\xc3\xbcrgen", "dave @ lab"} // one with a letter outside ASCII, one with blanks around the @
 	ndl := vpIntRange("downloads", 1, 2)
-	first := vpIntRange("first-user", 0, 3)
+	first := vpIntRange("first-user", 0, 4)
 	for k := 0; k < ndl; k++ {
-		user := users[(first+k)%4]
+		user := users[(first+k)%5]
 		id := identity.NewUser()
 		id.SetUserName(user)
 		id.SetAuthenticated(true)
@@ -97,6 +97,13 @@ func VP_C19_download_template() {
 		vpServedBody = ""
 		w := vpNewRW()
 		h.HandleDownload(w, vpRequest("GET", http.Header{}, id))
+		if user == "dave @ lab" && w.status == 400 {
+			// what is derived from this name may not fit on a line (a blank at the end of the user part, at the
+			// start of the domain): the request may be refused — what must not happen is a file that reads
+			// back as something else than the builder held
+			vpAssert(vpServed == k, "a-refused-download-serves-nothing")
+			return
+		}
 		vpAssert(w.status == 200 && vpServed == k+1, "file-served")
 		if w.status != 200 {
 			return
